@@ -213,6 +213,17 @@ func regStd() {
 		n := ex.asTerm(st, c.Args[0])
 		return one(st, App("itoa", SStr, n))
 	})
+	regEnv("strconv.ParseInt", "strconv.ParseInt(s,10,64): ParseInt(FormatInt(n)) == n; arbitrary error otherwise", func(ex *Executor, st *State, c *callCtx) []callResult {
+		s := ex.asTerm(st, c.Args[0])
+		err := ex.Fresh("parseint_err", SInt)
+		return one(st, &TupleV{V: []Value{App("atoi", SInt, s), err}})
+	})
+	regEnv("strconv.FormatInt", "strconv.FormatInt(n,10): itoa(n)", func(ex *Executor, st *State, c *callCtx) []callResult {
+		n := ex.asTerm(st, c.Args[0])
+		t := App("itoa", SStr, n)
+		st.Fact(Eq(App("atoi", SInt, t), n))
+		return one(st, t)
+	})
 	regEnv("strconv.Atoi", "strconv.Atoi: Atoi(Itoa(n)) == n", func(ex *Executor, st *State, c *callCtx) []callResult {
 		s := ex.asTerm(st, c.Args[0])
 		err := ex.freshErr(st, "atoi")
